@@ -212,3 +212,106 @@ def members():
         a.st(a.ge(x, -1.0))
         a.st(a.le(a.abs(x[0] - x[1]), 0.5))
     return M
+
+
+# ------------------------------------------------------------------ seeded random members
+def random_member(seed):
+    """A random dro model inside the structural bound (1-3 scenarios, dim z <= 2, polyhedral sets,
+    event-wise and affine adaptation, affine / bi-affine / piecewise expected objective, E- and plain rows)."""
+    import random
+    r = random.Random(seed)
+    ns = r.choice([1, 2, 2, 3])
+    nz = r.choice([1, 1, 2])
+    if ns * 2 ** nz > 8:
+        nz = 1          # bound: at most 8 (scenario, support vertex) pairs, i.e. weight polytopes in dimension <= 8
+    nx = r.choice([1, 2])
+    g = lambda: r.choice([-1.5, -1, -0.5, 0.5, 1, 1.5, 2])
+    labels = r.choice([None, None, ['s%d' % i for i in range(ns)]])
+    supp = []
+    for s in range(ns):
+        lo = [r.choice([-2, -1, -0.5, 0]) for _ in range(nz)]
+        hi = [l + r.choice([0.5, 1, 2]) for l in lo]
+        supp.append((lo, hi))
+    events = []
+    if ns >= 2 and r.random() < 0.6:
+        events.append([r.randrange(ns)])
+        if ns == 3 and r.random() < 0.4:
+            rest = [p for p in range(ns) if p not in events[0]]
+            events.append([r.choice(rest)])
+    affine = r.random() < 0.35
+    mean_all = r.random() < 0.6
+    mean_sub = ns >= 2 and r.random() < 0.5
+    sub = sorted(r.sample(range(ns), r.choice([1, 2]) if ns > 2 else 1)) if mean_sub else None
+    pmin = r.choice([0.125, 0.25]) if ns > 1 else None
+    pnorm = ns > 1 and r.random() < 0.3
+    okind = r.choice(['affine', 'biaffine', 'max', 'max'])
+    sense = r.choice(['minsup', 'minsup', 'maxinf'])
+    erow = r.random() < 0.5
+    prow = r.random() < 0.6
+    c = [g() for _ in range(nx)]
+    M = [[r.choice([0, 0.5, -0.5, 1]) for _ in range(nz)] for _ in range(nx)]
+    cz = [r.choice([0, 0.5, -0.5, 1]) for _ in range(nz)]
+    pieces = [([g() for _ in range(nx)], [r.choice([0, 0.5, -1]) for _ in range(nz)], r.choice([0, 0.5, -0.5, 1])) for _ in range(r.choice([2, 3]))]
+    er = ([g() for _ in range(nx)], [[r.choice([0, 0.5, -0.5]) for _ in range(nz)] for _ in range(nx)])
+    pr = ([g() for _ in range(nx)], [r.choice([0, 0.5, -1]) for _ in range(nz)])
+
+    def desc(a):
+        p = a.scen(ns, labels)
+        x = a.dvar(nx)
+        z = a.rvar(nz)
+        y = a.dvar(()) if affine else None
+        for ev in events:
+            a.evt(x, ev)
+        if affine:
+            a.aff(y, z, None, 0)
+        F = a.ambiguity()
+        mid = []
+        for s, (lo, hi) in enumerate(supp):
+            a.supp(F, [s], a.ge(z, A(lo)), a.le(z, A(hi)))
+            mid.append([(l + h) / 2 for l, h in zip(lo, hi)])
+        if mean_all:
+            mlo = [min(m[j] for m in mid) - 0.125 for j in range(nz)]
+            mhi = [max(m[j] for m in mid) + 0.125 for j in range(nz)]
+            a.expt(F, None, a.ge(a.Ez(z), A(mlo)), a.le(a.Ez(z), A(mhi)))
+        if sub is not None:
+            mhi = [max(mid[s][j] for s in sub) + 0.25 for j in range(nz)]
+            a.expt(F, sub, a.le(a.Ez(z), A(mhi)))
+        if pmin is not None:
+            if pnorm:
+                a.prob(F, a.ge(p, pmin / 2), a.le(a.norm(p - A([1.0 / ns] * ns), 1), 0.25))
+            else:
+                a.prob(F, a.ge(p, pmin))
+        lin = a.sum(A(c) * x)
+        sgn = 1.0 if sense == 'minsup' else -1.0
+        if okind == 'affine':
+            obj = lin + a.sum(A(cz) * z)
+        elif okind == 'biaffine':
+            obj = lin + x @ A(M) @ z
+        else:
+            ps = [a.sum(A(pc) * x) + a.sum(A(pz) * z) + p0 for pc, pz, p0 in pieces]
+            obj = a.maxof(*ps) if sense == 'minsup' else a.minof(*ps)
+        if y is not None and okind != 'max':
+            obj = obj + sgn * 0.5 * y
+        (a.minsup if sense == 'minsup' else a.maxinf)(a.E(obj), F)
+        if erow:
+            a.st(a.le(a.E(a.sum(A(er[0]) * x) + x @ A(er[1]) @ z), 4.0))
+        if prow:
+            a.st(a.le(a.sum(A(pr[0]) * x) + a.sum(A(pr[1]) * z), 5.0))
+        if y is not None:
+            a.st(a.ge(y, z[0] - 1.0))
+            a.st(a.le(y, 4.0))
+            a.st(a.ge(y, -4.0))
+        a.st(a.ge(x, -2.0))
+        a.st(a.le(x, 2.0))
+    desc.__name__ = 'rand%d' % seed
+    return desc
+
+
+def lookup(name):
+    """Member by name: curated members or 'rand<seed>'."""
+    M = members()
+    if name in M:
+        return M[name]
+    if name.startswith('rand'):
+        return random_member(int(name[4:]))
+    raise KeyError(name)
